@@ -412,6 +412,17 @@ def predictive(rec):
                 if n_distinct < 150 or np.allclose(d, 0):
                     return {'what': 'seed %d: only %d distinct noise values among 300 individuals / identical noise at different times: %s' % (sd_, n_distinct, bool(np.allclose(d, 0))),
                             'expected': 'independent noise', 'observed': n_distinct}
+            # exactly identical individuals (every dimension pooled; a Gaussian dimension with standard deviation 0): each of them still has
+            # measurement noise of its own
+            for label_, pop_, par_ in (('pooled population', real.PooledModel(n_dim=2), [1.0, 1.0]),
+                                       ('Gaussian population with standard deviation 0', real.ComposedPopulationModel([real.GaussianModel(), real.PooledModel()]), [1.0, 0.0, 1.0])):
+                mp = real.PopulationPredictiveModel(real.PredictiveModel(Toy(), [real.GaussianErrorModel()]), pop_)
+                for sd_ in (3, np.random.default_rng(3)):
+                    smp = mp.sample(par_, [1.0, 2.0], n_samples=200, seed=sd_, return_df=False)
+                    n_distinct = len(np.unique(np.round(smp[0, 0, :], 9)))
+                    if n_distinct < 190:
+                        return {'what': '%s (%s seed): only %d distinct measurement values among 200 identical individuals (they share the noise)' % (label_, 'integer' if isinstance(sd_, int) else 'generator', n_distinct),
+                                'expected': '200 independent noise draws', 'observed': n_distinct}
             return None
         return native_repeat(lambda sd: m.sample([1.0, 0.2, 0.0, 0.1], [1.0, 2.0], n_samples=3, seed=sd, return_df=False), seeds=(0, 0, 1))
     pop_calls = set()
